@@ -69,6 +69,8 @@ def scan(fn):
             tg = [n.target]
         for t in tg:
             for m in ([t] if not isinstance(t, (ast.Tuple, ast.List)) else t.elts):
+                if isinstance(m, ast.Attribute) and m.attr.startswith('_') and not m.attr.startswith('__'):
+                    continue      # a private memo attribute is not observable state (staleness: observers[...] of C10)
                 if isinstance(m, (ast.Attribute, ast.Subscript)):
                     b = base_name(m)
                     if b in params or b in alias or (b not in locals_):
